@@ -4,6 +4,11 @@
 (b) CORRESPONDENCE  Coq model (Lint/LineRules.v over regenerated Gen/LintPatterns.v) against the real validator classes
 (c) SEEDED          a catalogue of edits, each violating one rule, applied to real files in scratch trees; the real linter
                     must report the rule for the file (and line), exit non-zero, and be silent again after the undo
+(d) INDEPENDENT     in-process oracles written from the property text only (no model, no pinned skeleton): dependency rules read from
+                    the rule file's documented meaning against check_dependencies / DepsChecker.match (names that are prefixes, suffixes
+                    or extensions of one another; name sets with several members), blank-line bookkeeping and include extraction of
+                    HeaderParser.parse_file on synthetic sources (exotic separator characters, CRLF, no final LF, first / last line)
+                    and on the tree's files with one extra blank line per class of preceding line
 """
 import hashlib
 import multiprocessing
@@ -366,6 +371,255 @@ def dependency_pairs(files, contents_of):
 			if directory:
 				pairs.add((source, directory))
 	return sorted(pairs)
+
+
+# ---------------------------------------------------------------------------------------------------------------------
+# model-independent oracles (property text only; they never look at the Coq model nor at the linter's own code)
+
+class DepsOracle:
+	"""Reading of a deps.config from its documented meaning: `NAME = a b c` names a set, `S -> D` lets S use D, a name standing for a
+	set means every member, permissions are transitive, and a directory is covered by a rule name only when the WHOLE directory name
+	matches it (names are regular expressions).  An include of a single-directory path is an include relative to the including directory."""
+
+	def __init__(self, text):
+		lines, defines, self.bad = gen19.parse_deps_text(text)
+		table = dict(defines)
+
+		def leaves(name, depth=0):
+			if name not in table or depth > 8:
+				return [name]
+			return [leaf for member in table[name] for leaf in leaves(member, depth + 1)]
+
+		self.edges = {}
+		for src, dest in lines:
+			for a in leaves(src):
+				for b in leaves(dest):
+					self.edges.setdefault(a, set()).add(b)
+		self.closure = {}
+		self.cyclic = False
+		for start in self.edges:
+			seen = set()
+			stack = list(self.edges[start])
+			while stack:
+				name = stack.pop()
+				if name in seen:
+					continue
+				seen.add(name)
+				stack.extend(self.edges.get(name, ()))
+			self.cyclic = self.cyclic or start in seen
+			self.closure[start] = seen
+		self._compiled = {}
+
+	def _full(self, pattern, text):
+		if pattern not in self._compiled:
+			self._compiled[pattern] = re.compile(pattern)
+		return self._compiled[pattern].fullmatch(text) is not None
+
+	def sources_covering(self, directory):
+		return [name for name in self.closure if self._full(name, directory)]
+
+	def allowed(self, src, dest):
+		if '/' not in dest and dest != 'catapult':
+			dest = src + '/' + dest
+		return any(self._full(target, dest) for name in self.sources_covering(src) for target in self.closure[name])
+
+
+def dep_component(path):
+	"""Directory name under which the dependency rules know a file (src/ is dropped), or None when the file is not dependency-checked."""
+	if not re.match(r'src|extensions|plugins', path) or 'tests' in path:
+		return None
+	parts = os.path.dirname(path).split('/')
+	return '/'.join(parts[1:] if parts[0] == 'src' else parts)
+
+
+def shipped_deps_text():
+	return (common.REPO / 'linters' / 'cpp' / 'deps.config').read_text(encoding='utf8')
+
+
+def _literal_name(name):
+	return bool(re.fullmatch(r'[A-Za-z0-9_/]+', name))
+
+
+def prefix_related(oracle, components):
+	"""[(rule source R, component B, [D...])]: a proper prefix of B's name is covered by R, B itself is not, and D is something R may
+	use (transitively) that B may not.  Derived from the real rule file and the real directory names."""
+	found = []
+	for component in sorted(components):
+		for source in sorted(oracle.closure):
+			pattern = re.compile(source)
+			if not pattern.match(component) or pattern.fullmatch(component):
+				continue
+			forbidden = sorted(d for d in oracle.closure[source] if _literal_name(d) and '/' in d and d != component and not oracle.allowed(component, d))
+			if forbidden:
+				found.append((source, component, forbidden))
+	return found
+
+
+def header_names(files):
+	"""include directory (every suffix of a real directory) -> a real header name in it."""
+	names = {}
+	for path in files:
+		if not path.endswith('.h'):
+			continue
+		parts = os.path.dirname(path).split('/')
+		for k in range(len(parts)):
+			names.setdefault('/'.join(parts[k:]), os.path.basename(path))
+	return names
+
+
+def real_dependency_reports(files_and_includes, text=None):
+	"""checkProjectStructure.check_dependencies (the function main() calls after the walk) over {file name: [included paths]} with the
+	CI --dep-check-dir arguments; returns the (component, 'a -> b', message) violations the Dependencies suite would print."""
+	import argparse  # pylint: disable=import-outside-toplevel
+	import checkProjectStructure as cps  # pylint: disable=import-error,import-outside-toplevel
+	checker, errors = real_deps_checker(text)
+	entries = {}
+	for name, includes in files_and_includes.items():
+		entry = cps.Entry(os.path.dirname(name), os.path.basename(name), None)
+		entry.set_includes(list(includes))
+		entries[name] = entry
+	cps.check_dependencies(entries, checker, argparse.Namespace(dep_check_dir=['src', 'extensions', 'plugins']))
+	return errors
+
+
+PREFIX_NAMES = ['a', 'ab', 'abc', 'a/b', 'a/bc', 'a/b/c', 'a_b', 'b', 'ba', 'b/a', 'c/a', 'x/a/b', 'a.*', 'a/.*', 'ab.*', 'c', 'cc', 'c/c', 'd']
+
+
+def prefix_config(rng):
+	"""A small acyclic configuration over names that are prefixes / suffixes / extensions of one another; defines expanding to several
+	targets on either side of a rule."""
+	names = list(PREFIX_NAMES)
+	rng.shuffle(names)
+	order = {name: index for index, name in enumerate(names)}
+	lines = []
+	defines = {}
+	for key in rng.sample(['K', 'M', 'N'], rng.randrange(0, 4)):
+		defines[key] = rng.sample(names, rng.randrange(2, 5))
+		lines.append(f'{key} = ' + ' '.join(defines[key]))
+
+	def level(name, highest):
+		members = defines.get(name, [name])
+		return (max if highest else min)(order[m] for m in members)
+
+	for _ in range(rng.randrange(2, 10)):
+		src = rng.choice(names + list(defines))
+		dest = rng.choice(names + list(defines))
+		if level(src, True) < level(dest, False):   # every member of src precedes every member of dest: no cycle can arise
+			lines.append(f'{src} -> {dest}' + rng.choice(['', '', ' # note']))
+	rng.shuffle(lines)
+	return '\n'.join(lines) + '\n'
+
+
+def directory_variants(names):
+	"""Directory names around rule names: the names themselves (when literal), extended, truncated, prefixed and nested ones."""
+	out = set()
+	for name in names:
+		base = name.replace('/.*', '').replace('.*', '')
+		if not base:
+			continue
+		out.update({base, base + 'x', base + '_x', base + '/x', 'x' + base, 'x/' + base, base[:-1] or base, base + '/' + base.split('/')[-1]})
+	return sorted(n for n in out if n and not n.startswith('/') and not n.endswith('/'))
+
+
+BLANK_SURE = set(' \t\r\x0b\x0c')
+EXOTIC = ['\x0b', '\x0c', '\x1c', '\x1d', '\x1e', '\x85', '\u2028', '\u2029', '\r']
+
+
+def file_lines(text):
+	"""Lines as the compiler / an editor counts them: separated by LF only; no extra line after a final LF."""
+	lines = text.split('\n')
+	return lines[:-1] if text.endswith('\n') else lines
+
+
+def blank_expectations(lines):
+	"""(line numbers where 'consecutive blank lines' must be reported, line numbers where it must not): a line is surely blank when it
+	holds nothing but space / tab / CR / FF / VT, surely not blank when it holds a non-white character; anything else is left open."""
+	sure = [all(c in BLANK_SURE for c in line) for line in lines]
+	surely_not = [any(not c.isspace() for c in line) for line in lines]
+	must = [k + 1 for k in range(1, len(lines)) if sure[k] and sure[k - 1]]
+	must_not = [k + 1 for k in range(len(lines)) if surely_not[k] or (k > 0 and surely_not[k - 1]) or k == 0]
+	return must, must_not
+
+
+def parse_observed(scratch, text, name='probe.h'):
+	"""HeaderParser (no line validators) on the text: (consecutiveEmpty line numbers, extracted includes) or 'crash:<name>'."""
+	import HeaderParser  # pylint: disable=import-error,import-outside-toplevel
+	path = scratch / name
+	path.write_bytes(text.encode('utf8'))
+	found = []
+	try:
+		parser = HeaderParser.HeaderParser(lambda group, err: found.append((group, err.lineno)), str(path), [])
+	except Exception as ex:  # pylint: disable=broad-except
+		return f'crash:{type(ex).__name__}'
+	return sorted(lineno for group, lineno in found if group == 'consecutiveEmpty'), list(parser.includes)
+
+
+SYNTH_CODE = ['int x = 1;', '\tfoo();', '}', 'namespace a {', '// comment', '\t/* x */', '\tconst char* Text = "a b";', 'struct A {};', 'x \\']
+SYNTH_DIRECTIVES = ['#define A 1', '#ifdef A', '#endif', '#pragma once', '#else', '#undef A', 'extern "C" {', '#if defined(A) && \\', '#define M(x) \\', '\t#define B \\']
+SYNTH_CONTINUED = ['\tx; \\', '\t\\', '\ty']
+SYNTH_INCLUDES = [('#include "a/b.h"', '"a/b.h"'), ('#include <vector>', '<vector>'), ('\t#include "c.h"', '"c.h"'), ('#  include "d/e/f.h" // note', '"d/e/f.h"'), ('#include"g/h.h"', '"g/h.h"')]
+SYNTH_BLANKS = ['', '', '', '', ' ', '\t', '\x0c', '\x0b']
+
+
+def synthetic_source(rng):
+	"""(text, expected includes): a small file built line by line with known roles; blank lines in every position (first lines excepted),
+	also right after a backslash; includes on the very first / very last line; exotic separator characters inside lines; CRLF; no final LF."""
+	crlf = rng.randrange(8) == 0
+	lines = []
+	includes = []
+	consumed = False   # the previous line was a directive (or its continuation) ending in a backslash
+	count = rng.randrange(1, 14)
+	for index in range(count):
+		kind = rng.randrange(10)
+		edge = index in (0, count - 1)
+		if consumed and kind < 6:
+			line = rng.choice(SYNTH_CONTINUED + ['', '']) if not crlf else rng.choice(['\ty', ''])
+		elif (edge and kind < 5) or kind < 2:
+			line, name = rng.choice(SYNTH_INCLUDES)
+			if not consumed:
+				includes.append(name)
+		elif kind < 5 and index > 0:
+			line = rng.choice(SYNTH_BLANKS)
+		elif kind < 7:
+			line = rng.choice([d for d in SYNTH_DIRECTIVES if not (crlf and d.endswith('\\'))])
+		else:
+			line = rng.choice([c for c in SYNTH_CODE if not (crlf and c.endswith('\\'))])
+			if rng.randrange(3) == 0 and len(line) > 4 and not line.endswith('\\'):
+				position = rng.randrange(2, len(line) - 1)
+				line = line[:position] + rng.choice(EXOTIC) + line[position:]
+		directive = line.lstrip().startswith('#') and 'include' not in line
+		consumed = (directive or consumed) and line.endswith('\\')
+		lines.append(line)
+	separator = '\r\n' if crlf else '\n'
+	text = separator.join(lines) + (separator if rng.randrange(5) else '')
+	return text, includes
+
+
+FIXED_SOURCES = [
+	('', []), ('\n', []), ('int x;', []), ('#include "a/b.h"', ['"a/b.h"']), ('#include "a/b.h"\n', ['"a/b.h"']), ('int x;\n#include <a>', ['<a>']),
+	('#define M(x) \\\n\n\nint a;\n', []), ('#define M(x) \\\n\tx \\\n\n\nint a;\n', []), ('#if defined(A) && \\\n\n\n\tdefined(B)\n#endif\n', []),
+	('#define M \\\n#include "not/one.h"\n#include "is/one.h"\n', ['"is/one.h"']), ('int a;\n\n\n', []), ('int a;\n\n\n#include <b>', ['<b>']),
+	('int a;\r\n\r\n\r\nint b;\r\n', []), ('int a; // x\x0cy\n\n\nint b;\n', []), ('int a; // x\u2028y\n\n\nint b;\n', []), ('a\rb\n\n\nc\n', []),
+	('x \\\n\n\nint a;\n', []), ('// comment \\\n\n\nint a;\n', []), ('\t#include "c.h" // \x85\n \n\t\n', ['"c.h"'])]
+
+
+BLANK_CLASSES = (
+	('after a line ending in a backslash', lambda prev, prev2: prev.endswith('\\')),
+	('after the last line of a backslash-continued macro', lambda prev, prev2: prev2.endswith('\\') and not prev.endswith('\\')),
+	('after an #include', lambda prev, prev2: bool(re.match(r'\s*#\s*include', prev))),
+	('after another directive', lambda prev, prev2: prev.lstrip().startswith('#')),
+	('after an extern line', lambda prev, prev2: prev.lstrip().startswith('extern')),
+	('after a comment', lambda prev, prev2: prev.lstrip().startswith(('//', '*', '/*'))),
+	('after an opening brace', lambda prev, prev2: prev.endswith('{')),
+	('after a closing brace', lambda prev, prev2: prev.lstrip().startswith('}')),
+	('after a statement', lambda prev, prev2: prev.endswith(';')),
+	('elsewhere', lambda prev, prev2: True))
+
+
+def blank_class(lines, i):
+	prev = lines[i - 1] if i > 0 else ''
+	prev2 = lines[i - 2] if i > 1 else ''
+	return next(name for name, predicate in BLANK_CLASSES if predicate(prev, prev2))
 
 
 # ---------------------------------------------------------------------------------------------------------------------
@@ -827,6 +1081,8 @@ def strata_catalogue(tables, texts):  # pylint: disable=too-many-locals,too-many
 	blank_family('blank line inside an indented block', lambda lines, i: 21 <= i < len(lines) - 3 and lines[i] == '' and lines[i + 1].startswith('\t\t'))
 	blank_family('blank line before a namespace-level declaration', lambda lines, i: 21 <= i < len(lines) - 3 and lines[i] == '' and bool(re.match(r'^\t?[A-Za-z/]', lines[i + 1])))
 	blank_family('last blank line of the file', lambda lines, i: lines[i] == '' and i >= 21 and '' not in lines[i + 1:-1] and i < len(lines) - 2)
+	blank_family('blank right after a backslash line', lambda lines, i: 21 <= i < len(lines) - 3 and lines[i] == '' and lines[i - 1].endswith('\\'))
+	blank_family('blank right before a backslash line', lambda lines, i: 21 <= i < len(lines) - 3 and lines[i] == '' and lines[i + 1].endswith('\\'))
 
 	# preprocessor indentation: every directive keyword (and every first word after `pragma`) that occurs in the tree
 	kinds = set()
@@ -960,6 +1216,64 @@ def strata_catalogue(tables, texts):  # pylint: disable=too-many-locals,too-many
 	dependency_family('extensions', r'^extensions/[a-z]+/src/', 'catapult/', 'tools/health/')
 	dependency_family('src (local single-directory include)', r'^src/catapult/(crypto|utils)/[A-Za-z0-9_]+\.(h|cpp)$', 'catapult/utils/', 'zzseeded/')
 
+	# dependency rules: components whose directory name merely EXTENDS a name the rule file has rules for (catapult/io -> catapult/ionet,
+	# catapult/cache -> catapult/cache_db, extensions/mongo -> extensions/mongo/plugins/...): what only the shorter name may use stays
+	# forbidden for the longer one.  Pairs and forbidden targets come from the real rule file and the real directory names.
+	oracle = DepsOracle(shipped_deps_text())
+	components = {dep_component(path) for path in texts} - {None}
+	headers = header_names(texts)
+
+	def insert_include(rng, lines, path, directory):
+		block = [k for k in range(len(lines)) if re.match(r'^#include "', lines[k])]
+		if path.endswith('.cpp'):
+			block = block[1:]
+		if not block:
+			return None
+		k = rng.choice(block)
+		return lines[:k + 1] + [f'#include "{directory}/{headers.get(directory, "Seeded.h")}"'] + lines[k + 1:]
+
+	def extended_source_family(source, extended, forbidden):
+		def make(rng, path, lines):
+			if dep_component(path) != extended:
+				return None
+			directory = rng.choice(forbidden)
+			new = insert_include(rng, lines, path, directory)
+			if new is None:
+				return None
+			return Edit('', path, new, 'Dependencies', f'{extended} -> {directory} ', None, f'stratum: {extended} extends the rule name {source}; {directory} is for {source} only')
+		add(f'dependency rule [{extended} extends {source}]', '#include "', make)
+
+	for source, extended, forbidden in prefix_related(oracle, components):
+		extended_source_family(source, extended, forbidden)
+
+	def extended_target(rng, path, lines, mode):
+		component = dep_component(path)
+		if component is None:
+			return None
+		targets = sorted({t for name in oracle.sources_covering(component) for t in oracle.closure[name] if _literal_name(t) and '/' in t})
+		rng.shuffle(targets)
+		for target in targets:
+			if mode == 'prefix':
+				choices = sorted(c for c in headers if c.startswith(target) and c != target and '/' in c and not oracle.allowed(component, c))
+			else:
+				choices = [c for c in ('zz/' + target, 'zz' + target) if not oracle.allowed(component, c)]
+			if choices:
+				directory = rng.choice(choices)
+				new = insert_include(rng, lines, path, directory)
+				if new is None:
+					return None
+				return Edit('', path, new, 'Dependencies', f'{component} -> {directory} ', None, f'stratum: {directory} has the allowed {target} as a proper {mode}')
+		return None
+
+	def extended_target_prefix(rng, path, lines):
+		return extended_target(rng, path, lines, 'prefix')
+
+	def extended_target_suffix(rng, path, lines):
+		return extended_target(rng, path, lines, 'suffix')
+
+	add('dependency rule [included name extends an allowed name]', '#include "', extended_target_prefix)
+	add('dependency rule [included name ends with an allowed name]', '#include "', extended_target_suffix)
+
 	# cross-component includes: one stratum per rule set
 	def cross_family(kind, path_regex, include_regex, replacement):
 		def make(rng, path, lines):
@@ -1016,6 +1330,152 @@ def seeded_worker(job):  # pylint: disable=too-many-locals
 
 # ---------------------------------------------------------------------------------------------------------------------
 
+def independent_oracles(check, scratch, files, all_contents):  # pylint: disable=too-many-locals,too-many-branches,too-many-statements
+	"""Property oracles that use neither the Coq model nor the pinned skeletons; every failure carries its input."""
+	quick = check.tier == 'quick'
+	rng = check.rng
+	stats = {}
+
+	# -- dependency rules, shipped rule file: every (component, include directory) the tree knows, plus directory names around them
+	shipped = shipped_deps_text()
+	oracle = DepsOracle(shipped)
+	components = sorted({dep_component(path) for path in files} - {None})
+	headers = header_names(files)
+	first_file = {}
+	for path in files:
+		component = dep_component(path)
+		if component is not None:
+			first_file.setdefault(component, path)
+	related = prefix_related(oracle, components)
+	probes = {}   # file name -> [(include, expected allowed)]
+
+	def probe(component, directory, why):
+		name = first_file.get(component) or (('' if component.startswith(('extensions', 'plugins')) else 'src/') + component + '/Seeded.h')
+		if dep_component(name) != component:
+			return
+		include = f'{directory}/{headers.get(directory, "Seeded.h")}'
+		probes.setdefault(name, {})[include] = (component, directory, oracle.allowed(component, directory), why)
+
+	for source, component, forbidden in related:
+		for directory in forbidden:
+			probe(component, directory, f'{component} extends the rule name {source}')
+	destinations = sorted({d for targets in oracle.closure.values() for d in targets if _literal_name(d) and '/' in d})
+	varied = directory_variants([c for c in components if c.count('/') <= 2] + [s for s in oracle.closure if s.count('/') <= 2])
+	for _ in range(4000 if quick else 40000):
+		probe(rng.choice(components + varied), rng.choice(destinations + directory_variants(rng.sample(destinations, 2))), 'random pair')
+	reports = real_dependency_reports({name: list(table) for name, table in probes.items()})
+	reported = {(message.split(' # ')[1].split(' includes ')[0], message.split(' includes ')[1]) for _, _, message in reports}
+	stats['shipped_rule_file'] = {'prefix_related_pairs': len(related), 'probes': sum(len(t) for t in probes.values()), 'reported': len(reported)}
+	flat = [(name, include) + item for name, table in probes.items() for include, item in table.items()]
+	flat.sort(key=lambda item: (item[5] == 'random pair', not item[0].startswith('src/'), item[0], item[1]))
+	for name, include, component, directory, allowed, why in flat:
+		for _ in (0,):
+			check.case('oracle:deps:' + ('allowed' if allowed else 'forbidden') + (':prefix-related' if why != 'random pair' else ''), (name, include))
+			observed = (name, include) not in reported
+			if observed != allowed:
+				stem = 'forbidden-dependency-not-reported' if not allowed else 'allowed-dependency-reported'
+				check.fail(
+					f'deps-oracle:{stem}',
+					f'{name} (component {component}) includes "{include}": the rule file {"allows" if allowed else "does not allow"} {component} -> {directory} '
+					f'({why}), the linter {"does not report" if observed else "reports"} it',
+					{'kind': 'deps', 'config': None, 'file': name, 'include': include, 'component': component, 'directory': directory,
+						'expected': 'allowed' if allowed else 'reported', 'how': 'run.py replay <this file>'})
+
+	# -- dependency rules, synthetic rule files over names that are prefixes / suffixes / extensions of one another
+	configs = 0
+	pairs_checked = 0
+	for _ in range(100 if quick else 2000):
+		text = prefix_config(rng)
+		synthetic = DepsOracle(text)
+		if synthetic.bad or synthetic.cyclic:
+			continue
+		try:
+			checker, _ = real_deps_checker(text)
+		except Exception as ex:  # pylint: disable=broad-except
+			check.fail('deps-oracle:rule-file-rejected', f'an acyclic rule file with one-level name sets is rejected: {type(ex).__name__}: {ex}', {
+				'kind': 'deps', 'config': text, 'file': None, 'include': None, 'expected': 'accepted', 'how': 'run.py replay <this file>'})
+			continue
+		configs += 1
+		variants = directory_variants(PREFIX_NAMES)
+		names = sorted(set(rng.sample(variants, min(len(variants), 24))) | {n for n in PREFIX_NAMES if _literal_name(n)} | {'catapult'})
+		mismatch = None
+		for src in names:
+			for dest in names:
+				expected = synthetic.allowed(src, dest)
+				observed = bool(checker.match('x.h', src, dest, dest + '/y.h'))
+				pairs_checked += 1
+				if observed != expected and mismatch is None:
+					mismatch = (src, dest, expected, observed)
+		check.case('oracle:deps:synthetic-rule-file', text)
+		if mismatch:
+			src, dest, expected, observed = mismatch
+			stem = 'forbidden-dependency-not-reported' if not expected else 'allowed-dependency-reported'
+			check.fail(
+				f'deps-oracle:synthetic:{stem}', f'rule file {text!r}: {src} -> {dest} is {"allowed" if expected else "not allowed"} by the rules, '
+				f'DepsChecker.match says {"allowed" if observed else "reported"}',
+				{'kind': 'deps', 'config': text, 'file': None, 'include': None, 'component': src, 'directory': dest,
+					'expected': 'allowed' if expected else 'reported', 'how': 'run.py replay <this file>'})
+	stats['synthetic_rule_files'] = {'configs': configs, 'pairs': pairs_checked}
+
+	# -- HeaderParser.parse_file: blank-line bookkeeping and include extraction on synthetic sources (exotic separators inside lines,
+	#    CRLF, no final LF, empty file, includes on the first / last line, blank lines after a backslash)
+	(scratch / 'oracle').mkdir(exist_ok=True)
+	sources = list(FIXED_SOURCES) + [synthetic_source(rng) for _ in range(2000 if quick else 20000)]
+	for text, includes in sources:
+		lines = file_lines(text)
+		must, must_not = blank_expectations(lines)
+		observed = parse_observed(scratch / 'oracle', text)
+		check.case('oracle:parse:' + ('blank-pair' if must else 'no-blank-pair'), text)
+		replay_info = {'kind': 'parse', 'content': text, 'expected_consecutive_at': must, 'expected_includes': includes, 'how': 'run.py replay <this file>'}
+		if isinstance(observed, str):
+			check.fail(f'parse-oracle:{observed}', f'HeaderParser raises {observed[6:]} on {text!r}', replay_info)
+			continue
+		found, parsed = observed
+		missing = [n for n in must if n not in found]
+		spurious = [n for n in found if n in must_not]
+		if missing:
+			check.fail(
+				'parse-oracle:consecutive-blank-lines-not-reported:' + _signature(blank_class(lines, missing[0] - 2)),
+				f'lines {missing[0] - 1} and {missing[0]} of {text!r} are both blank, no consecutiveEmpty report for line {missing[0]} (reported: {found})', replay_info)
+		if spurious:
+			check.fail('parse-oracle:consecutive-blank-lines-reported-without-blank-pair', f'consecutiveEmpty reported at {spurious} of {text!r}', replay_info)
+		if parsed != includes:
+			check.fail('parse-oracle:includes-extracted', f'includes extracted from {text!r}: {parsed}, expected {includes}', replay_info)
+	stats['synthetic_sources'] = len(sources)
+
+	# -- the same bookkeeping on the tree's own files: one extra blank line next to a blank line, for every class of preceding line
+	cap = 120 if quick else 10 ** 9
+	taken = {}
+	order = list(files)
+	rng.shuffle(order)
+	sites = 0
+	for path in order:
+		text = all_contents[path]
+		lines = file_lines(text)
+		by_class = {}
+		for i in range(21, len(lines) - 1):
+			if lines[i] == '' and lines[i + 1] != '' and lines[i - 1] != '':
+				by_class.setdefault(blank_class(lines, i), []).append(i)
+		for name, positions in sorted(by_class.items()):
+			if taken.get(name, 0) >= cap:
+				continue
+			taken[name] = taken.get(name, 0) + 1
+			i = rng.choice(positions)
+			seeded = '\n'.join(lines[:i + 1] + [''] + lines[i + 1:]) + '\n'
+			observed = parse_observed(scratch / 'oracle', seeded, 'probe' + os.path.splitext(path)[1])
+			sites += 1
+			check.case('oracle:parse:tree-file-extra-blank-line:' + name, (path, i))
+			if isinstance(observed, str) or (i + 2) not in observed[0]:
+				check.fail(
+					'seeded-not-reported:consecutive-blank-lines-' + _signature(name),
+					f'{path}: an extra blank line after the blank line {i + 1} ({name}) draws no consecutiveEmpty report for line {i + 2} '
+					f'(HeaderParser says {observed if isinstance(observed, str) else observed[0]})',
+					{'kind': 'seeded', 'family': f'consecutive blank lines [{name}] (in-process sweep)', 'path': path, 'expected_suite': 'Consecutiveempty',
+						'expected_text': 'Consecutive empty lines', 'expected_line': i + 2, 'seeded_content': seeded, 'note': name, 'how': 'run.py replay <this file>'})
+	stats['tree_files_extra_blank_line'] = {'sites': sites, 'per_class': taken}
+	check.extra['independent_oracles'] = stats
+
+
 def _signature(text):
 	return re.sub(r'[^A-Za-z0-9]+', '-', text).strip('-')[:70]
 
@@ -1042,7 +1502,16 @@ def run(check, unrecognised):  # pylint: disable=too-many-locals,too-many-branch
 		'(typo family: every translatable pattern at least once in thorough, 6 random patterns in quick); every family is additionally STRATIFIED '
 		'by the syntactic kind of the line the edit applies to (code / comment / doc comment / string literal / #include / #define / macro continuation / '
 		'licence header / first and last line; every preprocessor directive keyword and every `#pragma <word>` occurring in the tree; include classes; '
-		'rule set per top directory; blank-line positions), at least one site per stratum present in the tree (quick 1, thorough 8)')
+		'rule set per top directory; blank-line positions incl. directly after / before a line ending in a backslash; dependency rules for every '
+		'component whose directory name extends a name the rule file has rules for, and for included directories that extend / end with an '
+		'allowed name), at least one site per stratum present in the tree (quick 1, thorough 8). '
+		'(b3) model-independent oracles, in process: checkProjectStructure.check_dependencies on the shipped deps.config against a reading of the '
+		'rule file written from its documented meaning (every prefix-related (rule name, component, target) triple of the tree + random '
+		'(component, directory) pairs incl. extended / truncated / prefixed names), DepsChecker.match on random acyclic rule files over names '
+		'that are prefixes / suffixes of one another with multi-member name sets; HeaderParser.parse_file on synthetic sources built line by '
+		'line with known roles (blank lines after a backslash, FF / VT / FS-RS / NEL / U+2028 / lone CR inside lines, CRLF, no final LF, empty file, '
+		'includes on the first / last line): consecutive-blank-line reports and extracted includes; one extra blank line per class of preceding '
+		'line in the tree\'s own files (quick 120 files per class, thorough all)')
 	if unrecognised.get('LintPatterns'):
 		for key in unrecognised['LintPatterns']:
 			check.broken.append(f'shape:{key}')
@@ -1195,9 +1664,14 @@ def run(check, unrecognised):  # pylint: disable=too-many-locals,too-many-branch
 			'shipped_rules': len(checker.rules), 'include_pairs_in_tree': len(pairs), 'match_cases': len(dep_cases),
 			'match_cases_reported': dep_real.count('F'), 'random_configs': len(config_cases), 'seconds': round(time.time() - start, 1)}
 
-		# ---- (c) seeded violations
+		# ---- (b3) model-independent oracles, in process: dependency rules and the line reader of HeaderParser
 		start = time.time()
 		all_contents = {path: (contents[path] if path in contents else (CATAPULT / path).read_text(encoding='utf8')) for path in files}
+		independent_oracles(check, scratch, files, all_contents)
+		check.extra['independent_oracles']['seconds'] = round(time.time() - start, 1)
+
+		# ---- (c) seeded violations
+		start = time.time()
 		entries = catalogue(tables)
 		strata = strata_catalogue(tables, all_contents)
 		entries.update(strata)
@@ -1299,6 +1773,37 @@ def replay(data):
 	common.setup_impl_path()
 	scratch = common.scratch_dir('c19replay')
 	try:
+		if info.get('kind') == 'deps':
+			text = info.get('config')
+			oracle = DepsOracle(text if text is not None else shipped_deps_text())
+			if info.get('file'):
+				reports = real_dependency_reports({info['file']: [info['include']]}, text)
+				observed = 'reported' if reports else 'allowed'
+				print('file:', info['file'], 'includes', info['include'], '->', [message for _, _, message in reports] or 'no Dependencies report')
+			else:
+				try:
+					checker, _ = real_deps_checker(text)
+				except Exception as ex:  # pylint: disable=broad-except
+					print('rule file rejected:', type(ex).__name__, ex)
+					return 1
+				observed = 'allowed' if checker.match('x.h', info['component'], info['directory'], info['directory'] + '/y.h') else 'reported'
+				print('rule file:', repr(text))
+			expected = 'allowed' if oracle.allowed(info['component'], info['directory']) else 'reported'
+			print(f'{info["component"]} -> {info["directory"]}: by the rules {expected}, linter: {observed}')
+			print('property:', 'holds' if expected == observed else 'fails')
+			return 0 if expected == observed else 1
+		if info.get('kind') == 'parse':
+			text = info['content']
+			lines = file_lines(text)
+			must, must_not = blank_expectations(lines)
+			observed = parse_observed(scratch, text)
+			print('content:', repr(text))
+			print('blank pairs end at lines:', must, '| includes expected:', info.get('expected_includes'))
+			print('HeaderParser:', observed)
+			bad = isinstance(observed, str) or any(n not in observed[0] for n in must) or any(n in must_not for n in observed[0]) \
+				or observed[1] != info.get('expected_includes', observed[1])
+			print('property:', 'fails' if bad else 'holds')
+			return 1 if bad else 0
 		files = cpp_files(CATAPULT)
 		if info.get('kind') == 'silence':
 			status, suites, _ = run_linter(CATAPULT)
